@@ -177,10 +177,12 @@ class Vertex(base.BaseObject):
         -- linked, unlinked, or anything else, to maintain cache integrity and
         prevent stale data.
         """
+        # drop the cache whether or not caching is currently enabled: entries
+        # made earlier must not survive a change made while it was switched off
+        self.__qa_nb_cache = {}
         if not self.NEIGHBOR_CACHING:
             return
         self._CACHE_STATS[self.uid][2] += 1
-        self.__qa_nb_cache = {}
 
     def _qa_neighbors_insert(self, answer, *args):
         """
